@@ -90,12 +90,14 @@ def check(ctx: Ctx) -> None:
     ctx.rule('C14.R2', 'operator tables agree: every operator modifier_parser can produce is handled by the legacy evaluator and rendered as a condition by the converter', floor=10)
     ctx.rule('C14.R3', 'per-operator meaning agrees between the legacy evaluator branch and the emitted expression', floor=8)
     ctx.rule('C14.R4', 'writer within reader domain: whatever the CSV loader accepts is expressible in a .rules file the loader accepts', floor=2)
+    ctx.rule('C14.R6', 'one generated block per CSV rule, in order: the rule loops of the converters have no skip, and the block header is emitted exactly once on every path', floor=2)
     ctx.rule('C14.R5', 'the two converters build the same match expression; migration and load_csv_as_engine use them', floor=3)
     r1(ctx)
     ops = r2(ctx)
     r3(ctx, ops)
     r4(ctx)
     r5(ctx)
+    r6(ctx)
 
 
 def r1(ctx: Ctx) -> None:
@@ -360,3 +362,38 @@ def r5(ctx: Ctx) -> None:
     need = ['[{merchant}]', 'match: {match_expr}', 'category: {category}', 'subcategory: {subcategory}']
     ok = all(n in lines for n in need) and any(l.startswith('tags: ') for l in lines)
     ctx.check(ok, 'C14.R5', f1, 'fields-carried', 'merchant, match, category, subcategory and tags are written for every rule', f'generated block lines are {lines}')
+
+
+def r6(ctx: Ctx) -> None:
+    from ..cfg import CFG, ENTRY, CONT, BREAK, EXIT, RAISE
+    proj = ctx.proj
+    for qn, marker in (('merchant_engine.csv_to_merchants_content', 'lines.append'), ('merchant_engine.csv_to_rules', 'rules.append')):
+        f = proj.func(qn)
+        loops = [s for s in f.node.body if isinstance(s, ast.For) and src(s.iter) == f.params[0]]
+        if len(loops) != 1:
+            ctx.unknown('C14.R6', f, f'{len(loops)} loops over {f.params[0]}')
+        lp = loops[0]
+        body = CFG(lp.body, loop_body=True, opaque_loops=True)
+        paths = [p for p in body.paths(ENTRY, (CONT, BREAK, EXIT)) if p[-1] != RAISE]
+        ctx.count('paths', len(paths))
+        # the statement that emits the rule: the header line / the rules.append
+        def emits(st):
+            if not (isinstance(st, ast.Expr) and isinstance(st.value, ast.Call) and src(st.value.func) == marker):
+                return False
+            if marker == 'lines.append':
+                a = st.value.args[0]
+                return isinstance(a, ast.JoinedStr) and fparts(a) and fparts(a)[0] == ('const', '[')
+            return True
+        ids = {body.nid(st) for st in body.stmts() if emits(st)}
+        skips = [st for st in body.stmts() if isinstance(st, (ast.Continue, ast.Break, ast.Return))]
+        counts = {sum(1 for n in p if n in ids) for p in paths}
+        ok = bool(ids) and counts == {1} and not skips
+        why = []
+        if skips:
+            g = body.guard_literals(skips[0])
+            why.append(f'`{type(skips[0]).__name__.lower()}` under {sorted(t for t, tr in g)[:2]}')
+        if counts != {1}:
+            why.append(f'the rule is emitted {sorted(counts)} times depending on the path')
+        ctx.check(ok, 'C14.R6', f, 'one-block-per-rule', f'every CSV rule yields exactly one {"block" if marker == "lines.append" else "MerchantRule"}, in order',
+                  f'{"; ".join(why)}: some CSV rows produce no rule in the generated file (e.g. rows that differ only in their [amount]/[date] modifiers look identical once the modifiers are '
+                  f'stripped from the pattern), so transactions they matched become Unknown after migration', skips[0] if skips else lp)
